@@ -270,6 +270,12 @@ func (m *c19Model) due(h int64) []string {
 		}
 	}
 	sort.Strings(ids)
+	// proposals whose voting ends at h first: a release at h is attributed to them before it is
+	// attributed to a proposal that merely triggers at h (attribution in the wrong order made a later
+	// thaw of the triggering proposal look like an unbacked release)
+	sort.SliceStable(ids, func(i, j int) bool {
+		return m.Props[ids[i]].Stop == h && m.Props[ids[j]].Stop != h
+	})
 	return ids
 }
 
